@@ -2,6 +2,7 @@ package checks
 
 import (
 	"math/rand"
+	"time"
 
 	"verifharness/internal/core"
 	"verifharness/internal/gen"
@@ -36,6 +37,50 @@ func msCons(r *rand.Rand, n int, wcnf bool) gen.M {
 	return c
 }
 
+// maxsatCases: every instance enumerated by MaxSat.tla goes through maxsat.New(...).Solve() and,
+// when all its constraints are clauses, also through the WCNF route.
+func maxsatCases(env *core.Env, emitted []core.Case) []core.Case {
+	var res []core.Case
+	for i, e := range emitted {
+		if env.Quick() && i%2 == 1 {
+			continue
+		}
+		var cons []gen.M
+		allClauses := true
+		for _, it := range e["inst"].([]any) {
+			im := it.(map[string]any)
+			cm := im["c"].(map[string]any)
+			lits, w, d := toInts(cm["lits"]), toInts(cm["w"]), int(cm["d"].(float64))
+			kind := "gteq"
+			ones := true
+			for _, x := range w {
+				if x != 1 {
+					ones = false
+				}
+			}
+			if ones && d == 1 {
+				kind = "clause"
+			} else if ones {
+				kind = "atleast"
+			}
+			if kind != "clause" {
+				allClauses = false
+			}
+			c := gen.Ctor(kind, lits, w, d)
+			c["weight"] = int(im["weight"].(float64))
+			cons = append(cons, c)
+		}
+		c := gen.M{"drv": "maxsat", "route": "api", "n": 2, "cons": cons, "top": 0,
+			"cfg": gen.M{"layout": 0, "layoutSeed": 0, "cap": 0}, "ev": []gen.M{gen.Op("solve")}}
+		res = append(res, c)
+		if allClauses {
+			w := wcnfCase(env.Rand, 2, cons)
+			res = append(res, deepCopy(w))
+		}
+	}
+	return res
+}
+
 // wcnfCase wraps weighted clauses into a WCNF case: declared variable count >= highest variable
 // used, top weight present whenever there is a hard clause.
 func wcnfCase(r *rand.Rand, n int, cons []gen.M) gen.M {
@@ -64,6 +109,10 @@ func wcnfCase(r *rand.Rand, n int, cons []gen.M) gen.M {
 func init() {
 	register(&core.Check{
 		ID:          "C04",
+		Designs: []core.Design{
+			{Name: "maxsat-encoding", Module: "MaxSat", Cfg: "MaxSat_intended.cfg", Workers: 8, XmxMB: 6000, Timeout: 10 * time.Minute, ToCases: maxsatCases},
+			{Name: "maxsat-encoding-one", Module: "MaxSat", Cfg: "MaxSat_ascoded.cfg", Workers: 1, XmxMB: 2000, Timeout: 5 * time.Minute, ExpectViolation: "EncodingCorrect"},
+		},
 		TraceModule: "MaxSatTrace",
 		Cases: func(env *core.Env) []core.Case {
 			r := env.Rand
